@@ -536,6 +536,52 @@ func ruleDedupeKeepsOne(r *core.Reporter) {
 				okRemove = false
 				r.Violated("DedupeItems/survivor-kept", p.InstrPos(rm), "the earlier node is removed but the map keeps pointing at it: a third duplicate would be compared with a node that is no longer in the tree, and the URL can be discarded altogether")
 			}
+			// the preference for the completed duplicate depends on nothing but the two statuses and the seed test:
+			// any further condition leaves a pending duplicate of a completed URL in the tree — it is fetched again
+			{
+				var foreign []ir.IfInfo
+				for _, ii := range ir.Ifs(fn) {
+					a := ii.Atom
+					if a.V != nil {
+						if a.V == hit {
+							continue
+						}
+						if c := ir.BoolCallAtom(a, "(*"+pkgModels+".Item).IsSeed"); c != nil && c.Call.Args[0] == existing {
+							continue
+						}
+						foreign = append(foreign, ii)
+						continue
+					}
+					isStatus := func(v ssa.Value) bool { _, f, ok := fieldOfLoad(v); return ok && f == "status" }
+					isLen := func(v ssa.Value) bool {
+						c, ok := v.(*ssa.Call)
+						return ok && ir.CallName(c.Common()) == "builtin.len"
+					}
+					switch {
+					case isStatus(a.X) || isStatus(a.Y): // status comparisons
+					case isLen(a.X) || isLen(a.Y): // loop bound
+					case ir.IsNilConst(a.X) || ir.IsNilConst(a.Y): // nil entries
+					default:
+						foreign = append(foreign, ii)
+					}
+				}
+				var hitIf *ir.IfInfo
+				for _, ii := range ir.Ifs(fn) {
+					if ii.Atom.V != nil && ii.Atom.V == hit {
+						ii := ii
+						hitIf = &ii
+					}
+				}
+				if hitIf != nil {
+					from := ir.EdgePt(hitIf.If.Block(), hitIf.EdgeWhen(true))
+					if indep, how := ir.IndependentOf(from, rm, foreign, nil); !indep {
+						okRemove = false
+						r.Violated("DedupeItems/prefers-completed", p.InstrPos(rm), "a pending duplicate is not always dropped in favour of the completed node with the same URL: %s keeps the pending one — that URL is fetched a second time by another node of the same tree", how)
+					} else {
+						r.Held("DedupeItems/prefers-completed", 1, "pending duplicate → completed duplicate replacement depends only on the two statuses and the seed test")
+					}
+				}
+			}
 			// never a seed
 			if _, g := ir.GuardedBy(fn, ir.Entry(fn), rm, false, func(a ir.Atom) bool {
 				c := ir.BoolCallAtom(a, "(*"+pkgModels+".Item).IsSeed")
